@@ -60,8 +60,14 @@ func (i *Interp) spawn(fr *frame, pos token.Pos, fn value, args []value) {
 	case *closure:
 		name = f.Fn.String()
 	}
-	if len(i.threads) > i.cfg.MaxThreads {
-		i.unsupported("more than %d goroutines", i.cfg.MaxThreads)
+	live := 0
+	for _, t := range i.threads {
+		if !t.done {
+			live++
+		}
+	}
+	if live > i.cfg.MaxThreads {
+		i.unsupported("more than %d live goroutines", i.cfg.MaxThreads)
 	}
 	t := i.newThread(name)
 	go func() {
